@@ -35,8 +35,16 @@ prop("C04", True,
      "Right level: the property quantifies over all geometries incl. runs of empty members and all float values; R1 is exhaustive over the order domain (so exact for all non-NaN floats), R2–R4 cover all paths of the code.",
      "Not decided: that exactly Len() calls succeed (needs an inductive invariant relating indices to the call count); NaN and -0 behaviour of math.Min/Max. Assumes the closure invariant 'member iterator p corresponds to the current member index' holds at entry (it is re-established on every path that changes the index).",
      None)
-prop("C05", False, "", "", "", NOT_YET)
-prop("C06", False, "", "", "", NOT_YET)
+prop("C05", True,
+     "codec shape extraction (format trees of writers and readers by abstract interpretation of the syntax tree, helpers inlined, loop idioms summarised) compared with the OGC layout; table extraction from switches/registries/SSA return types; order-argument threading rule",
+     "Strong on layout: (R1) for each of the seven types the extracted writer tree equals U8·U32 code·Body(T) with every count being uint32(len(x)) of the collection that follows and members written through Write (own header); the reader trees mirror it (count, then exactly that many members through Read; chunked point reads sum to the count); Point is struct{X,Y float64}; (R2) all 39 order-argument sites pass the element's own order, constant order only for the single flag byte; (R3) code tables of writer, registry, returned concrete types and asserted member types agree and equal OGC 1..7, flag table 0↔big/1↔little with anything else rejected; (R4) hex is EncodeToString/DecodeString around exactly wkb.Encode/Decode.",
+     "Not decided: encoding/binary's own behaviour (trusted: bit-exact float64 transfer, field order = struct order); hence NaN payload preservation follows from that trust. Reader loop idioms accepted: counted member loop, direct slice read, bounded chunk loop with a clamp helper (0 < clamp(n) <= n); anything else is UNDECIDED.",
+     None)
+prop("C06", True,
+     "table extraction from the encoder type switch / decoder name switch with static nesting depth from go/types, shape rules for positions, affine identity-copy-loop analysis",
+     "(R1) each of the six types is written with its RFC 7946 name and a coordinates value whose static type nests exactly as required, the decoder's case for each name decodes that nesting and returns the same-named geom type, JSON members are type/coordinates; (R2) positions are [p.X, p.Y] and read back as X=e[0], Y=e[1] under len(e)==2; (R3) all 13 conversion loops are full-range identity maps into make(T, len(src)); (R4) Encode returns json.Marshal's error and an error for unsupported types.",
+     "Not decided: encoding/json's float formatting/parsing (trusted shortest round trip), interface{} decoding of numbers as float64.",
+     None)
 prop("C07", True,
      "SSA taint analysis (source: memory written by encoding/binary.Read; sinks: make sizes; sanitizers: dominating clamps, bounded helper summaries), call-graph reachability with recovering-frame cut, path-sensitive error-before-use dataflow",
      "Structural necessary conditions of totality: (R1) no allocation size reachable from wkb.Read/Decode or hex.Decode is an input count unless bounded at that point; (R2) every explicit panic, single-result assertion and index/slice expression reachable from the five decoder entry points is below the frame that recovers and sets the error result (GeoJSON) or statically safe (WKB/hex), and every value passed to panic implements error (the recovery asserts e.(error)); (R3) no decoder function uses a value before testing the error it was returned with. This covers the statement's 'never panics' and 'count fields are not trusted' for all inputs; tests sample zero malformed inputs.",
@@ -71,7 +79,11 @@ prop("C15", True,
      "Not decided: the greedy matching itself (ambiguous matches, ring rotation by minPt/nextPt). Trusted: go/types resolution; idioms enumerated in checker/c15.go (type switch bound/unbound, comma-ok, len compare, helper call).",
      None)
 prop("C16", False, "", "", "", NOT_YET)
-prop("C17", False, "", "", "", NOT_YET)
+prop("C17", True,
+     "emission-grammar extraction: abstract interpretation of the appender functions with every loop unrolled for 1,2,3 members per nesting level, token strings parsed by an OGC WKT recogniser held in the checker; constant-argument rule for strconv; support table",
+     "Strong on well-formedness: (R1) for each of the five supported types and all 3^depth member-count combinations (first/middle/last member all occur) the emitted token string is accepted by the OGC BNF, has the member counts of the geometry at every level and lists every coordinate exactly once in storage order, X before Y; (R2) every float is formatted with precision -1, 64 bits, format in eEfgG (shortest round trip); (R3) exactly the five types are encoded and everything else reaches the error return.",
+     "Not decided: strconv's contract (trusted). Bounds: member counts {1,2,3} per level realise every index predicate the appenders may test (i==0, i==len-1 and their negations); predicates on other positions would be UNDECIDED.",
+     None)
 prop("C18", False, "", "", "", NOT_YET)
 prop("C19", False, "", "", "", NOT_YET)
 prop("C20", False, "", "", "", NOT_YET)
